@@ -130,10 +130,13 @@ def sweep_ops(g, nodeid, tb, maps):
 def sc_sweep(sess, rng, tb, **over):
     """global / per-mount / no mapping, overlapping and disjoint ranges; every operation on a mount with its own mapping,
     on one without, on the pseudo fs and across mount points"""
+    m1 = over.pop('m1', None) or gen_mapping(rng)
     c = new_case(sess, rng, tb, **over); g = HistoryGen(c, rng, use_maps=True)
-    m1 = gen_mapping(rng); g.maps_in_play.append(m1)
-    st1, o1 = g.mount(path=mk_path(rng, [('N', 1)]), map=m1, ans=dict(okmount(rng), uid=pick_id(rng, [m1, c.cfg['gmap']]), gid=pick_id(rng, [m1, c.cfg['gmap']])))
-    st2, o2 = g.mount(path=mk_path(rng, [('N', 2), ('N', 3)]), map=None, ans=dict(okmount(rng), uid=pick_id(rng, [c.cfg['gmap']]), gid=pick_id(rng, [c.cfg['gmap']])))
+    g.maps_in_play.append(m1)
+    st1, o1 = g.mount(path=mk_path(rng, [('N', 1)]), map=m1, ans=dict(okmount(rng), **({'uid': pick_id(rng, [m1, c.cfg['gmap']]), 'gid': pick_id(rng, [m1, c.cfg['gmap']])} if os.environ.get('VFS_NO_DET') else {'uid': m1[0], 'gid': m1[0] + m1[2] - 1})))   # root owner at both ends of the mount's internal range
+    gm = gmap_of(c.cfg)
+    u2 = {'uid': pick_id(rng, [c.cfg['gmap']]), 'gid': pick_id(rng, [c.cfg['gmap']])} if (gm is None or os.environ.get('VFS_NO_DET')) else {'uid': gm[0], 'gid': gm[0] + gm[2] - 1}
+    st2, o2 = g.mount(path=mk_path(rng, [('N', 2), ('N', 3)]), map=None, ans=dict(okmount(rng), **u2))    # owner inside the global mapping's internal range
     for o_ in (o1, o2):
         if o_['status'] == 'ok': sweep_ops(g, (o_['vals'][0] << 56) | 1, tb, g.maps_in_play)
     sweep_ops(g, ROOT_INO, tb, g.maps_in_play)
@@ -206,7 +209,9 @@ def sc_slot_reuse(sess, rng, tb):
 
 def gen_cases(sess, rng, tb, tier):
     q = tier == 'quick'; cases = []
-    cases.append(sc_sweep(sess, rng, tb, gmap=(0, 1000, 65536)))      # the documented example mapping: covers internal id 0
+    # deterministic: the documented example mapping (covers internal id 0) as global mapping, and a per-mount mapping
+    # whose external range overlaps its internal range (translating twice differs from translating once)
+    cases.append(sc_sweep(sess, rng, tb, gmap=(0, 1000, 65536), m1=(1000, 2000, 65536)))
     for _ in range(9 if q else 100): cases.append(sc_sweep(sess, rng, tb))
     for _ in range(8 if q else 50): cases.append(sc_rootmount(sess, rng, tb))
     for _ in range(1 if q else 6): cases.append(sc_overmount_reuse(sess, rng, tb))
